@@ -289,12 +289,23 @@ func (fi *FuncInfo) term0(v ssa.Value) *Term {
 	case *ssa.Field:
 		return fi.fieldOf(fi.Term(v.X), fieldName(v.X.Type(), v.Field), v.Type(), v)
 	case *ssa.Index:
-		return mk(KIndex, "", v.Type(), v, fi.Term(v.X), fi.Term(v.Index))
-	case *ssa.Lookup:
-		if v.CommaOk {
-			return mk(KLkOK, "", v.Type(), v, fi.Term(v.X), fi.Term(v.Index))
+		t := mk(KIndex, "", v.Type(), v, fi.Term(v.X), fi.Term(v.Index))
+		if isRefType(v.X.Type()) {
+			t.V = fi.VersionAtTyped(v, fi.ObjClass(v.X).add("[]"), v.Type())
 		}
-		return mk(KLookup, "", v.Type(), v, fi.Term(v.X), fi.Term(v.Index))
+		return t
+	case *ssa.Lookup:
+		k := KLookup
+		var et types.Type
+		if mt, ok := v.X.Type().Underlying().(*types.Map); ok {
+			et = mt.Elem()
+		}
+		if v.CommaOk {
+			k = KLkOK
+		}
+		t := mk(k, "", v.Type(), v, fi.Term(v.X), fi.Term(v.Index))
+		t.V = fi.VersionAtTyped(v, fi.ObjClass(v.X).add("[]"), et)
+		return t
 	case *ssa.UnOp:
 		switch v.Op {
 		case token.MUL:
@@ -437,17 +448,17 @@ func (fi *FuncInfo) loadTerm(ld *ssa.UnOp) *Term {
 	var ids []string
 	var hit []*MemDef
 	for d := range reach {
-		if fi.MayAlias(d.Cls, cls) {
+		if fi.affects(d.Cls, cls, ld.Type()) {
 			ids = append(ids, d.ID)
 			hit = append(hit, d)
 		}
 	}
 	sort.Strings(ids)
 	ver := strings.Join(ids, ",")
-	if len(hit) == 1 {
-		if st, ok := hit[0].Instr.(*ssa.Store); ok && Dominates(st, ld) {
+	if st := singleStore(hit); st != nil && Dominates(st, ld) {
+		{
 			sa := fi.Term(st.Addr)
-			if sa.Key() == addr.Key() {
+			if sa.Key() == addr.Key() && (len(hit) == 1 || len(hit) == len(structLeaves(st.Val.Type(), 0))) {
 				return fi.Term(st.Val)
 			}
 			// store to a prefix (whole struct), load of a field path
@@ -464,6 +475,24 @@ func (fi *FuncInfo) loadTerm(ld *ssa.UnOp) *Term {
 		}
 	}
 	return &Term{K: KLoad, A: []*Term{addr}, V: ver, Typ: ld.Type(), Val: ld}
+}
+
+// singleStore returns the Store instruction that all the definitions come
+// from, or nil.
+func singleStore(hit []*MemDef) *ssa.Store {
+	if len(hit) == 0 {
+		return nil
+	}
+	st, ok := hit[0].Instr.(*ssa.Store)
+	if !ok {
+		return nil
+	}
+	for _, d := range hit[1:] {
+		if d.Instr != hit[0].Instr {
+			return nil
+		}
+	}
+	return st
 }
 
 // addrSuffix: if addr = base.f1.f2..., returns [f1 f2 ...].
@@ -503,10 +532,9 @@ func (fi *FuncInfo) contentTerm(a ssa.Value, at ssa.Instruction) *Term {
 		}
 	}
 	sort.Strings(ids)
-	if len(hit) == 1 {
-		if st, ok := hit[0].Instr.(*ssa.Store); ok && Dominates(st, at) && fi.Term(st.Addr).Key() == addr.Key() {
-			return fi.Term(st.Val)
-		}
+	if st := singleStore(hit); st != nil && Dominates(st, at) && fi.Term(st.Addr).Key() == addr.Key() &&
+		(len(hit) == 1 || len(hit) == len(structLeaves(st.Val.Type(), 0))) {
+		return fi.Term(st.Val)
 	}
 	var typ types.Type
 	if p, ok := a.Type().Underlying().(*types.Pointer); ok {
@@ -575,4 +603,21 @@ func (t *Term) Callee() string {
 		return t.S
 	}
 	return ""
+}
+
+// Renorm re-applies the context-dependent normalisations (field projection of
+// loads, operand ordering) bottom-up after a substitution.
+func (fi *FuncInfo) Renorm(t *Term) *Term {
+	if t == nil || len(t.A) == 0 {
+		return t
+	}
+	na := make([]*Term, len(t.A))
+	for i, a := range t.A {
+		na[i] = fi.Renorm(a)
+	}
+	if t.K == KField {
+		return fi.fieldOf(na[0], t.S, t.Typ, nil)
+	}
+	n := &Term{K: t.K, S: t.S, A: na, V: t.V, Typ: t.Typ, Val: t.Val}
+	return normalize(n)
 }
